@@ -289,12 +289,12 @@ def check_parent(ctx, prog, f):
     ctx.check(not direct, 'C07.parent', f['pq'], 'decode:children inserted only through Xml::operator<<', fwhere(f, direct[0]['l'] if direct else None), 'no direct access to a child list',
               'decode() manipulates a child list directly (`%s`): the child\'s parent link is not set' % (pe(direct[0]) if direct else ''))
     # element children appended: calls elems.top() << e   with e an Xml
-    adds = [e for e in fn_exprs(f) if e.get('k') == 'call' and e.get('pq') == 'asl::Xml::operator<<']
+    adds = [e for e in q.fn_exprs_inlined(prog, f) if e.get('k') == 'call' and e.get('pq') == 'asl::Xml::operator<<']       # helpers of decode() included
     by_sig = {}
     for e in adds:
         by_sig.setdefault(e.get('sig'), []).append(e)
     ctx.info['child_insertions'] = dict((k, len(v)) for k, v in by_sig.items())
-    ctx.check('(const asl::Xml &)' in by_sig and len(by_sig['(const asl::Xml &)']) >= 3, 'C07.parent', f['pq'], 'decode:elements and text nodes attached with operator<<(const Xml&)', fwhere(f),
+    ctx.check('(const asl::Xml &)' in by_sig and set(by_sig) == {'(const asl::Xml &)'}, 'C07.parent', f['pq'], 'decode:elements and text nodes attached with operator<<(const Xml&)', fwhere(f),
               '%d insertions of Xml nodes' % len(by_sig.get('(const asl::Xml &)', [])), 'decode() attaches nodes through %s: text or element children are added without going through the parent-linking operator' % sorted(by_sig))
     op = fn1(prog, 'asl::Xml::operator<<', '(const asl::Xml &)')
     ctx.analysed(op)
